@@ -18,7 +18,7 @@ from ..engine import Analysis
 from ..frontend import AnalysisError
 from ..report import RuleResult
 from . import common, persist
-from .c12 import load_worker
+from .c12 import analyse_load_rows_c12, load_worker
 
 PROP = "C13"
 CONTENT_ERRORS = {
@@ -69,6 +69,11 @@ def run(analysis: Analysis, tier: str) -> RuleResult:
             res.add("C13-R1", f"safe_load_sensors[{ext}] / content error {cls.__name__} cannot escape start-up", covered, "mysensors/persistence.py", "caught around both the main and the backup load" if covered else "escapes")
         if n_paths < 8:
             raise AnalysisError(f"C13: only {n_paths} paths through safe_load_sensors[{ext}]")
+        before = len(res.obs)
+        analyse_load_rows_c12(res, summ)
+        for o in res.obs[before:]:
+            o.rule = "C13-R3"
+        res.reindex()
         if not caught_classes:
             res.add("C13-R1", f"safe_load_sensors[{ext}] / damaged content is caught", False, "mysensors/persistence.py", "no handler catches a decoder error")
     res.units = {"formats": list(persist.EXTS), "source_digest": analysis.p.digest()}
